@@ -199,18 +199,33 @@ func runC06(c *Ctx) {
 
 	R.Rule("R-size-param", "E3+E6", "MAIL SIZE is refused with 552, without consulting the backend, exactly when a limit is set and the declared size exceeds it", 4)
 	if f := c.A.Func("(*Conn).handleMail"); f != nil {
-		// find the comparison with Server.MaxMessageBytes
+		// find the comparison with Server.MaxMessageBytes: the other operand must derive from a
+		// strconv.ParseUint of the parameter value (directly or through a helper's success returns)
 		var sizeDesc string
+		var sizeVal ssa.Value
 		allInstrs(f, func(in ssa.Instruction) {
 			if bo, ok := in.(*ssa.BinOp); ok {
 				l, r := describe(bo.X), describe(bo.Y)
-				if r == "Server.MaxMessageBytes" && strings.Contains(l, "ParseUint") {
-					sizeDesc = l
-				} else if l == "Server.MaxMessageBytes" && strings.Contains(r, "ParseUint") {
-					sizeDesc = r
+				if r == "Server.MaxMessageBytes" {
+					if _, _, ok := parseUintOrigin(bo.X, 0); ok {
+						sizeDesc, sizeVal = l, bo.X
+					}
+				} else if l == "Server.MaxMessageBytes" {
+					if _, _, ok := parseUintOrigin(bo.Y, 0); ok {
+						sizeDesc, sizeVal = r, bo.Y
+					}
 				}
 			}
 		})
+		if sizeVal != nil {
+			pu, steps, _ := parseUintOrigin(sizeVal, 0)
+			base, _ := constInt(pu.Call.Args[1])
+			bits, _ := constInt(pu.Call.Args[2])
+			R.Ob("(*Conn).handleMail/SIZE parsed in base 10", c.P.InstrPos(pu), base == 10, fmt.Sprintf("SIZE parsed in base %d", base))
+			R.Ob("(*Conn).handleMail/SIZE cannot wrap when converted to int64", c.P.InstrPos(pu), bits >= 1 && bits <= 63, fmt.Sprintf("SIZE is parsed as a %d-bit unsigned value and then converted to int64: declared sizes >= 2^63 become negative and pass the limit check", bits))
+			src := argInCallerFrame(pu.Call.Args[0], steps)
+			R.Ob("(*Conn).handleMail/SIZE parsed from the parameter value", c.P.InstrPos(pu), src == "next#2", "SIZE is parsed from "+src)
+		}
 		if sizeDesc == "" {
 			R.Ob("(*Conn).handleMail/SIZE compared with limit", c.P.Pos(f.Pos()), false, "no comparison of the parsed SIZE value with Server.MaxMessageBytes found")
 		} else {
@@ -230,7 +245,7 @@ func runC06(c *Ctx) {
 		}
 		for _, st := range c.Sites("st:MailOptions.Size") {
 			_, _, v := storedField(st)
-			R.Ob(c.siteKey(st, "opts.Size = parsed SIZE"), c.P.InstrPos(st), describe(v) == sizeDesc, "opts.Size stored from "+describe(v))
+			R.Ob(c.siteKey(st, "opts.Size = parsed SIZE"), c.P.InstrPos(st), describe(v) == sizeDesc && sizeDesc != "", "opts.Size stored from "+describe(v))
 		}
 	}
 
